@@ -29,6 +29,7 @@ Alphabet ==
   CASE Family = "c17" -> SetOps(BKeys) \cup {Op("ack", "", ""), Op("footer", "", "f1"), Op("build", "", "")}
     [] Family = "c13" -> SetOps({"exp", "iat", "nbf", "ca"})
                            \cup {Op("ack", "", ""), Op("footer", "", "f1"), Op("assertion", "", "a1"), Op("build", "", "")}
+    [] Family = "c13t" -> SetOps({"nbf"}) \cup {Op("tick", "", ""), Op("ack", "", ""), Op("build", "", "")}
     [] Family = "c14" -> {Op("set", k, v) : k \in {"iss", "ca", "cb"}, v \in {"v1", "v2"}}
                            \cup {Op("remove", k, "") : k \in {"iss", "ca", "cb"}}
                            \cup {Op("extend", "cb", "v1"), Op("extendw", "cb", "v1")}
